@@ -1069,7 +1069,7 @@ func (h *handler) handleProduce(ctx context.Context, header *protocol.RequestHea
 				}
 				continue
 			}
-			if batch.LastOffsetDelta < 0 || batch.MessageCount != batch.LastOffsetDelta+1 {
+			if batch.LastOffsetDelta < 0 || int64(batch.MessageCount) != int64(batch.LastOffsetDelta)+1 {
 				// Offsets are assigned from these two header fields. A producer batch
 				// always has lastOffsetDelta == recordCount-1; anything else would hand
 				// out offsets twice (negative delta) or leave holes in the log.
